@@ -323,11 +323,40 @@ def rule_hooks(ctx, rep):
         rep.must_pass("C16.hooks", name + ".nesting.every-return", f, [f.entry()], None, lambda i: i in st, to_exit=True, include_start=True, what="the nesting counter is updated on every returning path")
 
 
+def rule_bp_mask(ctx, rep):
+    """bp: saved_fork_signal_mask is shared by every thread that forks; it is written and read only while rcu_gp_lock and
+    rcu_registry_lock are held (before_fork stores it after taking them, the after_fork handlers copy it to a local before
+    releasing them).  Accessed outside the locks, a second forking thread overwrites the mask the first one will restore."""
+    m = ctx.mod("bp", "flat")
+    need = {"@rcu_gp_lock", "@rcu_registry_lock"}
+    n = 0
+    for name in ("urcu_bp_before_fork", "urcu_bp_after_fork_parent", "urcu_bp_after_fork_child"):
+        f = m.fn(name)
+        pat.require(f is not None, name + " vanished")
+        rep.touch(f)
+        entry, _exit = c19.BP_HANDOFF[name]
+        must = lockset.compute(f, entry=entry)
+        for i in f.all_insts():
+            touches = False
+            if i.op in ("load", "store") and pat.base_global(i.d["ap"]) == "saved_fork_signal_mask":
+                touches = True
+            if i.op == "call" and any(ap and pat.base_global(ap) == "saved_fork_signal_mask" for ap in i.d.get("aps", [])):
+                touches = True
+            if not touches:
+                continue
+            n += 1
+            held = set(must.get(i.id, ()))
+            rep.check(need <= held, "C16.bpmask", "%s@%d" % (name, i.line), "saved_fork_signal_mask accessed with both fork locks held",
+                      "saved_fork_signal_mask accessed holding only %s: two threads forking concurrently restore each other's signal mask" % sorted(held - {lockset.SIGBLOCKED}), [i.where()])
+    pat.require(n >= 3, "bp: only %d accesses to saved_fork_signal_mask found" % n)
+
+
 RULES = [
     ("C16.handoff", rule_handoff),
     ("C16.handoff", rule_bp_handoff),
     ("C16.pause", rule_pause),
     ("C16.child", rule_child),
     ("C16.hooks", rule_hooks),
+    ("C16.bpmask", rule_bp_mask),
 ]
 FLOORS = {}
